@@ -293,6 +293,14 @@ func (r *Reader) extractGroupedShapes(grpSp *grpSpXML, slide *Slide) {
 		}
 	}
 
+	// Process graphic frames (tables) in the group
+	for _, gf := range grpSp.GraphicFrame {
+		if gf.Graphic.GraphicData.Tbl != nil {
+			table := r.extractTable(gf.Graphic.GraphicData.Tbl)
+			slide.Tables = append(slide.Tables, table)
+		}
+	}
+
 	// Recursively process nested groups
 	for _, nestedGrp := range grpSp.GrpSp {
 		r.extractGroupedShapes(&nestedGrp, slide)
